@@ -1253,6 +1253,9 @@ pub async fn run_async(plan: &PlanA, opts: &ExecOpts) -> RunResult {
 }
 
 fn finish(mut res: RunResult, kernel: &Arc<Kernel>, t0: tokio::time::Instant, nontrivial_events: u64) -> RunResult {
+    if crate::interpose::wall_now_secs() >= 2_147_483_648 {
+        res.probe("clock.history_reaches_2038");
+    }
     kernel.with(|k| {
         res.events = k.log.n;
         res.event_hash = format!("{:016x}", k.log.hash ^ vfs::with_disk(|d| d.hash));
